@@ -867,7 +867,61 @@ func (t *Tracer) load(st *tstate, fr *frame, addr *Sym, in ssa.Instruction) *Sym
 			}
 		}
 	}
+	// an element (or a field of an element) of a slice built on this path by appending to nil
+	if el := appendElemAt(addr); el != nil {
+		return el
+	}
+	if fa, ok := addr.V.(*ssa.FieldAddr); ok && addr.Kind == KAddr && len(addr.Args) == 1 {
+		if el := appendElemAt(addr.Args[0]); el != nil {
+			return fieldOfT(el, fa.Field, addr.Field)
+		}
+	}
 	return &Sym{Kind: KInit, Cell: cell, Field: addr.Field, ID: t.id(), V: valueOf(in), Args: []*Sym{addr}}
+}
+
+// emptySliceSym: the symbol is a slice that certainly has no elements (nil, make([]T, 0, n), []T{}).
+func emptySliceSym(s *Sym) bool {
+	if s == nil {
+		return false
+	}
+	if s.IsNil() {
+		return true
+	}
+	switch s.Kind {
+	case KFresh:
+		if mk, ok := s.V.(*ssa.MakeSlice); ok {
+			if c, ok := mk.Len.(*ssa.Const); ok && c.Value != nil {
+				n, exact := constant.Int64Val(c.Value)
+				return exact && n == 0
+			}
+		}
+	case KPure:
+		if s.Name == "slice" && len(s.Args) == 3 && s.Args[0] != nil && s.Args[0].V != nil {
+			if pt, ok := s.Args[0].V.Type().Underlying().(*types.Pointer); ok {
+				if at, ok := pt.Elem().Underlying().(*types.Array); ok {
+					return at.Len() == 0
+				}
+			}
+		}
+	}
+	return false
+}
+
+// appendElemAt resolves the address &s[i] (built by indexAddr) of a slice s that is, on this path, a chain of
+// non-spread appends to nil with a constant index inside the appended elements: the i-th appended value.
+func appendElemAt(addr *Sym) *Sym {
+	if addr == nil || addr.Kind != KAddr || addr.V != nil || len(addr.Args) != 2 || addr.Args[0] == nil || addr.Args[0].Kind != KAppend {
+		return nil
+	}
+	base, elems, spread := AppendElems(addr.Args[0])
+	if spread || !emptySliceSym(base) {
+		return nil
+	}
+	n, ok := addr.Args[1].IsConstInt()
+	if !ok || n < 0 || n >= int64(len(elems)) {
+		return nil
+	}
+	return elems[n]
 }
 
 func valueOf(in ssa.Instruction) ssa.Value {
@@ -1154,6 +1208,10 @@ func (t *Tracer) invoke(st *tstate, fr *frame, in ssa.Instruction, c *ssa.CallCo
 				res = &Sym{Kind: KOpaque, V: valueOf(in), ID: t.id(), Name: bi.Name(), Args: args}
 				if len(args) == 1 && args[0] != nil && args[0].Kind == KAppend && !args[0].Spread {
 					res.Min = int64(len(args[0].Args) - 1)
+					// a chain of non-spread appends to nil has exactly the appended elements
+					if base, elems, spread := AppendElems(args[0]); bi.Name() == "len" && !spread && emptySliceSym(base) {
+						res = constSym(constant.MakeInt64(int64(len(elems))), types.Typ[types.Int])
+					}
 				}
 			}
 		default:
